@@ -71,7 +71,9 @@ class VariableAccessTransformer(converter.Base):
 
     results = []
     for tgt in rewrite_targets:
+      # Deleting an unbound variable is an error, same as reading it.
       template = """
+        ag__.ld(var_)
         var_ = ag__.Undefined(var_name)
       """
       results.extend(templates.replace(
